@@ -44,7 +44,7 @@ def plan(tier, seed, ctx):
         'functions_filter': r'(Strand|c07a|StubExec)',
         'explanation': 'Real code: all of src/exe/strand.cpp (Submit, Call, Drop, Mark, MakeStrand, ctor/dtor) + Helper<AtomicCounter,Strand>.',
     }
-    return {'modules': modules, 'queries': queries, 'meta': meta, 'module_opts': {'c07a': {'nthreads': 2, 'heap': 1024, 'stack': 2048, 'preempt': True}}}
+    return {'modules': modules, 'queries': queries, 'meta': meta, 'module_opts': {'c07a': {'nthreads': 2, 'heap': 1024, 'stack': 2048, 'preempt': True, 'hb': True}}}
 
 
 MANIFEST = {
@@ -52,7 +52,7 @@ MANIFEST = {
                   'by the complete other unit; covering bound proved) and spurious weak-CAS failure, that jobs never overlap, keep per-submitter program order, are '
                   'each Called exactly once or (underlying executor stopped) Dropped exactly once, that no job is lost in the window between the runner\'s last '
                   'check and its CAS back to idle, and that the strand is idle and freed at quiescence.',
-    'level_note': 'Two logical threads, 3-4 jobs, well-nested schedules only (the full thread encoding did not fit in memory). Trusted: clang -O1 IR, ir2c, rt, cbmc.',
+    'level_note': 'Two logical threads, 3-4 jobs, well-nested schedules only (the full thread encoding did not fit in memory). Trusted: clang -O1 IR, ir2c, rt, cbmc. The C04 happens-before ghost runs inside the same cubes: consecutive jobs must be ordered through the strand\'s own atomics.',
     'technique': 'bounded model checking of the real code with solver-decided preemption cubes (sequentialised two-unit schedules)',
     'design_ref': 'DESIGN.md 2b, 4 C07',
 }
